@@ -5213,20 +5213,29 @@ class DfaCompileCtx:
                 def consider(transition):
                     return not any(x.get_target_override_mode() in [ActionOverrideMode.ALWAYS_GOTO_OTHER, ActionOverrideMode.ALWAYS_GOTO_UNDEFINED] and transition.target not in x.get_target_override_targets() for x in transition.actions)
 
+                def leads_to(transition):
+                    # a break (possibly inside a condition) leaves for the end of its loop without consuming anything
+                    targets = [transition.target] if consider(transition) else []
+                    for action in transition.actions:
+                        for subaction in action.all_subactions():
+                            if isinstance(subaction, BreakAction):
+                                targets.append(subaction.refers_to.end_state)
+                    return targets
+
                 def aux(x):
                     if isinstance(x, DFConditionPoint):
                         for i in x.transitions:
-                            if i.target in visited:
-                                continue
-                            if consider(i):
-                                visited.add(i.target)
-                                aux(i.target)
+                            for target in leads_to(i):
+                                if target not in visited:
+                                    visited.add(target)
+                                    aux(target)
                     else:
                         real_target = x[transition.on_values]
-                        if real_target and real_target.is_fallthrough and consider(real_target):
-                            if real_target.target not in visited:
-                                visited.add(real_target.target)
-                                aux(real_target.target)
+                        if real_target and real_target.is_fallthrough:
+                            for target in leads_to(real_target):
+                                if target not in visited:
+                                    visited.add(target)
+                                    aux(target)
                 
                 aux(state)
 
